@@ -30,9 +30,11 @@ DEVS = [("Mono", "FinalIsExpected", "monomorphism instead of induced residue mat
         ("NoPattern", "FinalIsExpected", "pattern veto removed"),
         ("KeepRemoved", "FinalIsExpected", "interactions of removed atoms written (m03)"),
         ("F13", "FinalIsExpected", "finding F13 (repaired): residue attributes missing on the first residue"),
-        ("VerKey", "FinalIsExpected", "open finding: version numbers tested against removed node keys"),
+        ("VerKey", "FinalIsExpected", "finding F17 (repaired): version numbers tested against removed node keys"),
         ("DangEnd", "Export", "dangling interaction expected beyond the chain end")]
-SIG_VERKEY = "removed-node-key-equals-version"
+# finding F17 (removed-node-key-equals-version) is REPAIRED: behaviour that equals the DevVerKey deviation is a VIOLATION again; the match is
+# only mentioned in the report text so that a returning defect is recognised at once
+F17_NOTE = " [observed interactions equal Links.tla with deviation DevVerKey: repaired finding F17 is back]"
 SYNTAXES = [("ff", 0), ("ff", 1), ("mixed", 0)]
 
 
@@ -47,7 +49,7 @@ def _syntax_for(fam, idx, both=False):
 
 
 def _only_ints_differ(exp, obs, inp):
-    """exact classifier of the open finding: everything equals the expectation except that the interactions are those TLC computed
+    """recogniser of the repaired finding F17: everything equals the expectation except that the interactions are those TLC computed
     for the write-back that confuses version numbers with node keys"""
     if "exception" in obs or not exp.get("verkeydiffers"):
         return False
@@ -128,8 +130,7 @@ def replay_family(ck, fam, res, tier, rng):
             ff = ffs[case["input"]["ff"] - 1]
             ck.violation({"kind": "S->I replay", "family": fam, "syntax": syntax, "variant": variant, "input": case["input"], "ff": ff,
                           "expected": case["expected"], "observed": obs, "differences": diffs},
-                         sig=SIG_VERKEY if known else None,
-                         what="family %s case %d (%s): generated molecule differs from Links.tla: %s" % (fam, idx, syntax, "; ".join(diffs[:3])))
+                         what="family %s case %d (%s): generated molecule differs from Links.tla: %s%s" % (fam, idx, syntax, "; ".join(diffs[:3]), F17_NOTE if known else ""))
     ck.replayed += len(items)
     for idx, case in items:
         if any(x["out"] == "applied" for x in case["expected"]["calls"]) or case["expected"]["removed"]:
@@ -238,8 +239,8 @@ def gen_params_subset(ck, fam, items, ffs, n, rng):
         for idx, diffs, known in bad:
             case = byidx[idx]
             ck.violation({"kind": "gen_params", "family": fam, "input": case["input"], "ff": ffs[case["input"]["ff"] - 1], "expected": case["expected"],
-                          "differences": diffs}, sig=SIG_VERKEY if known else None,
-                         what="family %s case %d through gen_params: %s" % (fam, idx, "; ".join(diffs[:2])))
+                          "differences": diffs},
+                         what="family %s case %d through gen_params: %s%s" % (fam, idx, "; ".join(diffs[:2]), F17_NOTE if known else ""))
 
 
 # ------------------------------------------------------------------ I -> S
@@ -308,8 +309,8 @@ def trace_stage(ck, recs, name, describe):
     for i, why in sorted(rejected.items()):
         rec = recs[i]
         ck.violation({"kind": "I->S record", "stage": name, "record": rec, "failing_component": why},
-                     sig=SIG_VERKEY if why == "known-verkey" else None,
-                     what="%s: record %d rejected by Links.tla, first differing component: %s (%s)" % (name, i, why, describe(rec)))
+                     what="%s: record %d rejected by Links.tla, first differing component: %s (%s)%s" % (
+                         name, i, "interactions" if why == "known-verkey" else why, describe(rec), F17_NOTE if why == "known-verkey" else ""))
     for i, rec in enumerate(recs):
         if i not in rejected and i not in skipped and any(x["out"] == "applied" for x in rec["obs"]["calls"]):
             ck.nontrivial.add("%s:%d" % (name, i))
